@@ -210,6 +210,58 @@ def check_phys(prog, noise, ev, rate):
     return out + [("@phys", "")]
 
 
+
+# ---- B2. reduced states of multi-level runs ---------------------------------------------------------------------------------
+def reduce_cases(tier):
+    return [("reduce", prog, basis, normalize) for prog in ("both-bases", "both-bases-weak") for basis in ("ground-rydberg", "digital")
+            for normalize in (True, False)]
+
+
+def check_reduce(prog, basis, normalize):
+    """CoherentResults.get_state(t, reduce_to_basis=...) of a three-level run: the kept components are the projection of the full
+    state (up to a global phase), of unit norm when normalize=True."""
+    from pulser import Pulse, Register, Sequence
+    from pulser_simulation import QutipEmulator
+
+    if prog == "both-bases":
+        seq = build_prog("both-bases")
+    else:  # one atom, a weak Raman pulse leaving a few percent in h, then a Rydberg pulse
+        seq = Sequence(Register({"q0": (0.0, 0.0)}), world_device())
+        seq.declare_channel("d", "raman_global")
+        seq.declare_channel("g", "rydberg_global")
+        seq.add(Pulse.ConstantPulse(100, 4.0, 0.0, 0.0), "d")
+        seq.add(Pulse.ConstantPulse(120, 6.0, 0.0, 0.0), "g")
+    sim = QutipEmulator.from_sequence(seq)
+    res = sim.run()
+    n = len(seq.register.qubit_ids)
+    keep_levels = {"ground-rydberg": (0, 1), "digital": (1, 2)}[basis]  # basis 'all' = (r, g, h) per atom
+    keep = [i for i in range(3**n) if all(((i // 3**(n - 1 - k)) % 3) in keep_levels for k in range(n))]
+    out = []
+    times = list(res._sim_times)
+    for t in (times[0], times[len(times) // 3], times[len(times) // 2], times[-1]):
+        full = res.get_state(t).full().ravel()
+        proj = full[keep]
+        pn = float(np.linalg.norm(proj))
+        if pn < 1e-6:
+            continue
+        try:
+            got = res.get_state(t, reduce_to_basis=basis, tol=1.0, normalize=normalize).full().ravel()
+        except Exception as e:
+            out.append((f"C11:reduced-state-raises:{basis}:{type(e).__name__}", f"{prog} t={t}: {e}"[:200]))
+            continue
+        if got.shape != proj.shape:
+            out.append((f"C11:reduced-state-dimension:{basis}", f"{prog} t={t}: {got.shape} vs {proj.shape}"))
+            continue
+        gn = float(np.linalg.norm(got))
+        want_norm = 1.0 if normalize else pn
+        if abs(gn - want_norm) > 1e-6:
+            out.append((f"C11:reduced-state-norm:{basis}:normalize={normalize}", f"{prog} t={t}: norm {gn:.6f}, expected {want_norm:.6f} "
+                        f"(population kept {pn**2:.4f})"))
+        elif abs(abs(np.vdot(proj, got)) - pn * gn) > 1e-6:
+            out.append((f"C11:reduced-state-not-the-projection:{basis}:normalize={normalize}", f"{prog} t={t}"))
+    return out + [("@reduce", "")]
+
+
 # ---- C. bitstring conventions ---------------------------------------------------------------------------
 BASES = {
     "ground-rydberg": (("r", "g"), "ground-rydberg", "r"),
@@ -733,6 +785,8 @@ def worker(case):
             return sweep_case(case[1])
         if k == "phys":
             return check_phys(*case[1:])
+        if k == "reduce":
+            return check_reduce(*case[1:])
         if k == "conv":
             return check_conv(*case[1:])
         if k == "convsup":
@@ -746,7 +800,7 @@ def run(tier, seed):
     res = Result("exploration")
     nmax = 1500 if tier == "quick" else 12000
     cases = [("sweep", T) for T in range(4, nmax + 1)]
-    cases += phys_cases(tier) + conv_cases(tier) + tape_cases(tier) + legacy_tape_cases(tier) + stoch_cases(tier) + emu_history_cases(tier)
+    cases += phys_cases(tier) + reduce_cases(tier) + conv_cases(tier) + tape_cases(tier) + legacy_tape_cases(tier) + stoch_cases(tier) + emu_history_cases(tier)
     outs = gridx.run(worker, cases, chunksize=8)
     classes = {}
     for c, r in zip(cases, outs):
@@ -756,7 +810,7 @@ def run(tier, seed):
             else:
                 res.add(Violation(fp, d, {"engine": "emux", "case": repr(c)}))
     res.coverage = dict(
-        evaluations=len(cases), distinct_nontrivial=sum(classes.get(k, 0) for k in ("@sweep", "@phys", "@conv", "@tape", "@ltape", "@stoch", "@emuhist")), exhaustive=True,
+        evaluations=len(cases), distinct_nontrivial=sum(classes.get(k, 0) for k in ("@sweep", "@phys", "@conv", "@tape", "@ltape", "@stoch", "@emuhist", "@reduce")), exhaustive=True,
         outcome_classes=classes, durations_swept=[4, nmax],
         rule="(A) every integer duration 4..N of a resonant constant pulse on a clock-1 device: legacy emulator norm and analytic Rabi "
              "population, V2 backend returns and stores the same final state; (B) 8 programs (Rabi, idle, detuned, two atoms, digital, "
